@@ -51,14 +51,19 @@
 (* touching, and the named deviation class `cls` of the name.              *)
 (*                                                                         *)
 (* Property (C08): Confined.  The layouts have no confinement, so it fails *)
-(* for Deviations = {} (WirePath_ideal.cfg: the design admits escape);     *)
-(* WirePath_asis.cfg names the escaping classes of the tree under test     *)
-(* (= the open entries of known/C08.json) and must pass.                   *)
+(* for the tree as it is with Deviations = {} (WirePath_asis_strict.cfg:   *)
+(* the design admits escape - EXPECTED to fail); WirePath_asis.cfg names   *)
+(* the escaping classes of the tree under test (= the open entries of      *)
+(* known/C08.json) and must pass; WirePath_ideal.cfg switches the          *)
+(* candidate repair on (RejectSpecialParts) and must pass with no          *)
+(* deviation at all.                                                       *)
 (***************************************************************************)
 EXTENDS Naturals, Sequences, FiniteSets
 
 CONSTANTS MaxLen,       \* names up to this length are enumerated
           ExtraNames,   \* further (longer) names to enumerate
+          RejectSpecialParts, \* TRUE: the candidate repair - _split refuses a name with
+                        \* an empty, '.', '..' or NUL-containing part (FALSE = the tree)
           Deviations    \* named classes of names that are allowed to escape
 
 Sym     == {"a", "DOT", "SEP", "U", "NUL"}
@@ -148,14 +153,21 @@ Groups == {"create", "plain"}
 Group(slot) == IF slot = "CREATE" THEN "create" ELSE "plain"
 EffG(g, nm) == Eff(IF g = "create" THEN "CREATE" ELSE "SELECT", nm)
 
+\* the candidate repair: refuse the name before any path is built
+Refused(nm) ==
+  /\ RejectSpecialParts
+  /\ \E i \in 1..Len(Split(nm)) : Kind(Split(nm)[i]) \in {"empty", "dot", "dotdot", "nul"}
+
 \* Resolve(layout, name): where the kernel ends up for get_path(name, '/')
-Resolve(layout, nm) == ZoneOf(Comps(layout, Split(nm)))
+Resolve(layout, nm) ==
+  IF Refused(nm) THEN "rejected" ELSE ZoneOf(Comps(layout, Split(nm)))
 
 \* the parent probes of add_folder / rename_folder:
 \* _get_path(parts[0:i]) for i in range(1, len(parts) - 1)
 Prefixes(layout, nm) ==
   LET parts == Split(nm) IN
-  {ZoneOf(Comps(layout, SubSeq(parts, 1, i))) : i \in 1..(Len(parts) - 2)}
+  IF Refused(nm) THEN {}
+  ELSE {ZoneOf(Comps(layout, SubSeq(parts, 1, i))) : i \in 1..(Len(parts) - 2)}
 
 \* what a command that acts on a path in zone z may be seen touching: the
 \* path and everything below it
